@@ -17,6 +17,7 @@ import XotModel.Lemmas.Doctype
 import XotModel.Lemmas.PrettyBetween
 import XotModel.Lemmas.Prolog
 import XotModel.Lemmas.XmlDeclRest
+import XotModel.Lemmas.CdataToken
 
 namespace XotModel.Props
 open XotModel XotModel.Gen
@@ -524,5 +525,37 @@ example : Prolog.xmlDecl ((⟨some ['U','T','F','-','8'], some false⟩ : Declar
 example : Prolog.isEncName ['U','T','F','-','8'] = true ∧
     Prolog.idsOk (.pub ['-','/','/','W','3','C','/','/','D','T','D',' ','X',' ','1','.','0','/','/','E','N']
       ['a','>','b','<','c','.','d','t','d']) = true ∧ Prolog.isXmlName ['a',':','b'] = true := by decide
+
+/-! ### `cdata_section_elements`, token level over trees -/
+
+/-- "The parent is a CDATA-section element": an element parent whose name is listed (a text node
+    without an element parent — detached, or directly under a document — never is). -/
+theorem C14_cdata_element_iff (pr : TokenParams) (parent : Option Tree) :
+    isCdataElement pr parent = true ↔
+      ∃ par name, parent = some par ∧ par.value = .element name ∧ name ∈ pr.cdataSectionElements :=
+  isCdataElement_iff pr parent
+
+/-- Every text token of `Xot::tokens` (any tree, start node, parameter set) belongs to a text node
+    with the event's value; for a text node under a listed element the token is
+    `serialize_cdata text` and the CDATA / character-reference section reader decodes it to the
+    node's text (`C14_cdata`); for every other text node it is `serialize_text` (with or without
+    `unescaped_gt`) and `parse_text token = text`. -/
+theorem C14_cdata_token (env : Env) (pr : TokenParams) (t : Tree) (start : Path)
+    (ks : List (Path × Output × OutputToken)) (h : tokens env pr t start = .ok ks)
+    (p : Path) (c : Str) (tok : OutputToken) (hk : (p, Output.text c, tok) ∈ ks) :
+    (∃ node, t.at? p = some node ∧ node.value = .text c) ∧ tok.space = false ∧
+    (if isCdataElement pr (t.parentAt? p) then
+       tok.text = serializeCdata c ∧ cdataSectionsContent tok.text = some c
+     else tok.text = serializeText pr.unescapedGt c ∧ parseText tok.text = .ok c) :=
+  cdata_token env pr t start ks h p c tok hk
+
+/-- Non-vacuity: `<a>]]></a><b>]]></b>` with `a` (name 2) listed and `unescaped_gt`: one token of
+    each kind. -/
+example :
+    (tokens {} ⟨[2], true⟩ (.node .document [.node (.element 5)
+        [.node (.element 2) [.node (.text [']',']','>']) []], .node (.element 3) [.node (.text [']',']','>']) []]]]) []
+      ).okValue?.map (fun l => (l.filter (fun k => k.2.1 == Output.text [']',']','>'])).map
+        (fun k => (k.1, String.ofList k.2.2.text)))
+    = some [([0, 0, 0], "<![CDATA[]]]]><![CDATA[>]]>"), ([0, 1, 0], "]]&gt;")] := by decide
 
 end XotModel.Props
